@@ -777,6 +777,10 @@ class VM:
             if isinstance(a, NoneV) or isinstance(b, NoneV):
                 r = z3.BoolVal(isinstance(a, NoneV) and isinstance(b, NoneV))
                 return r if n == "Is" else z3.Not(r)
+            if isinstance(a, (ClsV, BuiltinV, EnumV)) and isinstance(b, (ClsV, BuiltinV, EnumV)):
+                # classes, builtin types and enum members are singletons: identity is equality
+                r = eq_values(a, b)
+                return r if n == "Is" else z3.Not(r)
             raise OutsideSubset("`is` on non-None")
         if n in ("Lt", "LtE", "Gt", "GtE"):
             x, y = as_int(a), as_int(b)
